@@ -851,11 +851,17 @@ class SymInt:
         raise ProxyLeak("hash of a symbolic int")
 
     def __index__(self):
-        """finite concretisation: only when the path condition fixes the value"""
-        v = core.cur().determined(self.e)
-        if v is None:
-            raise ProxyLeak("index/range over an undetermined symbolic int")
-        return v.as_long()
+        """finite concretisation: the value fixed by the path condition, else enumeration of the feasible values
+        (each value becomes its own path; terminates only for finitely bounded terms - guarded by a cap)"""
+        p = core.cur()
+        for _ in range(64):
+            m = p.witness()
+            v = m.eval(self.e, model_completion=True)
+            if not z3.is_int_value(v):
+                raise ProxyLeak("index over a non-integer term")
+            if p.fork(self.e == v):
+                return v.as_long()
+        raise ProxyLeak("index/range over a symbolic int with more than 64 feasible values")
 
     def __repr__(self):
         return "<int %s>" % self.e
